@@ -156,6 +156,24 @@ def sqla_sources():
         yield ("sqla-src", "table/" + tag, 'conf = Table(\n    "conf",\n    metadata,\n    Column("id", Integer, primary_key=True, doc="the key"),\n    %s,\n    comment="Conf",\n)\n' % col.replace("Column(", 'Column("col", ', 1))
 
 
+# hand-written JSON-schemas: property keywords a generated schema never contains
+JSON_PROPS = {
+    "pattern-alpha": {"type": "string", "description": "the split", "pattern": "train|test"},
+    "pattern-underscore": {"type": "string", "description": "the split", "pattern": "train_set|test_set"},
+    "pattern-digits": {"type": "string", "description": "the level", "pattern": "0|1|2"},
+    "pattern-regex": {"type": "string", "description": "the slug", "pattern": "^[a-z]+(-[a-z]+)*$"},
+    "pattern-empty-alternative": {"type": "string", "description": "the mode", "pattern": "fast|"},
+    "no-description": {"type": "integer", "default": 3},
+    "default-only": {"default": "x"},
+}
+
+
+def json_sources():
+    for tag, prop in JSON_PROPS.items():
+        yield ("json-src", tag, json.dumps({"$id": "https://offscale.io/Conf.schema.json", "$schema": "https://json-schema.org/draft/2020-12/schema", "description": "Conf", "type": "object",
+                                              "properties": {"id": {"type": "integer", "description": "the key"}, "col": prop}, "required": ["id"]}))
+
+
 def check_one(job):
     kind = job[0]
     try:
@@ -181,6 +199,10 @@ def check_one(job):
                 node = ast.parse(job[2]).body[0]
                 fn = cdd.sqlalchemy.parse.sqlalchemy if isinstance(node, ast.ClassDef) else cdd.sqlalchemy.parse.sqlalchemy_table
                 return [((k, "sqlalchemy-source", job[1]), w, None) for k, w in well_formed(fn(node))]
+            if kind == "json-src":
+                import cdd.json_schema.parse
+
+                return [((k, "json-schema-source", job[1]), w, None) for k, w in well_formed(cdd.json_schema.parse.json_schema(json.loads(job[2])))]
             if kind == "merge":
                 import cdd.class_.parse
 
@@ -218,6 +240,7 @@ def main(tier, write_baseline=False):
         ndoc = len(jobs)
         jobs += [("merge", m) for m in ("build", "__init__", "make")]
         jobs += list(sqla_sources())
+        jobs += list(json_sources())
         pool = domain.param_pool(["int", "str", "bool", "Optional[int]", "Literal['x', 'y']"], docs=["the {name}", ""])
         irs = list(domain.irs(1, pool, suffix_defaults=True)) + list(domain.irs(2, pool, sample=60 if tier == "quick" else 600, seed=run.seed, suffix_defaults=True))
         for fmt in ("class", "pydantic", "function", "argparse", "json_schema", "sqlalchemy", "sqlalchemy_table"):
@@ -238,7 +261,7 @@ def main(tier, write_baseline=False):
                 fails.setdefault(key, (j[0], j[1:] if j[0] != "code" else [j[1], j[3], j[2]], what))
         run.bounded.append({
             "name": "well_formed_ir(result) as a run-time postcondition on the real parsers (bounded, NOT counted as proved)",
-            "bound": "%d grammar-generated docstrings (3 styles, sections in either order, *args/**kwargs entries, comma types with ', optional', notes/raises/examples, multi-line descriptions) through docstring.parse and parse_docstring; class_ with merge_inner_function on 3 methods; 18 hand-written SQLAlchemy models (class and Table) with Column keywords primary_key / nullable / default / comment / ForeignKey / unique / index; %d generated interfaces x 7 code/schema formats x styles; %d token strings of <= 3 tokens as arbitrary text; %d evaluations raised" % (ndoc, len(irs), len(texts), raised),
+            "bound": "%d grammar-generated docstrings (3 styles, sections in either order, *args/**kwargs entries, comma types with ', optional', notes/raises/examples, multi-line descriptions) through docstring.parse and parse_docstring; class_ with merge_inner_function on 3 methods; 18 hand-written SQLAlchemy models (class and Table) with Column keywords primary_key / nullable / default / comment / ForeignKey / unique / index; 7 hand-written JSON-schemas (patterns with underscores / digits / a regex / an empty alternative, missing description / type); %d generated interfaces x 7 code/schema formats x styles; %d token strings of <= 3 tokens as arbitrary text; %d evaluations raised" % (ndoc, len(irs), len(texts), raised),
             "rule": "one parser call per input; non-trivial = the parser returns",
             "evaluations": len(jobs), "distinct_nontrivial": len(jobs) - raised,
             "failures": [{"class": "|".join(map(str, k)), "what": v[2][:200]} for k, v in list(fails.items())[:6]],
